@@ -224,6 +224,16 @@ theorem convex_complete (ccw : Bool) (vs : List (Pt2 ℝ)) (hn : 3 < vs.length) 
       (by rw [pts_indexed_reverse]; exact convex_reverse ccw vs hc)
     simpa [hl] using this
 
+/-- **C03 on convex polygons, functionally.** For a strictly convex vertex list (either direction) of at
+least four vertices `triangulate2d` returns exactly the fan from the last vertex:
+`n-1, 0, 1,  n-1, 1, 2,  …,  n-1, n-3, n-2`. -/
+theorem convex_fan (ccw : Bool) (vs : List (Pt2 ℝ)) (hn : 3 < vs.length) (hc : ConvexPos ccw vs) :
+    triangulate2d vs = some (labels (fanAux (vAt (indexed vs) (vs.length - 1)) (indexed vs))) := by
+  have hl : (indexed vs).length = vs.length := by simp [indexed]
+  have := triangulate_convex_fan ccw (indexed vs) (by omega) (by rw [pts_indexed]; exact hc)
+  rw [hl] at this
+  simp [triangulate2d, hn, this]
+
 /-- the public entry points: `triangulate2d` on the list, `triangulate2d_rev` on the reversed list,
 both rejecting fewer than four vertices (the `assert!`) -/
 theorem triangulate2d_spec (vs : List (Pt2 ℝ)) :
